@@ -7,9 +7,11 @@ import (
 	"context"
 	"errors"
 	"fmt"
+	"runtime"
 	"sort"
 	"strings"
 	"sync"
+	"sync/atomic"
 	"testing"
 	"time"
 
@@ -86,6 +88,8 @@ type yielder struct {
 	atYield map[string]bool
 	prefix  string
 	rate    int64
+	// onOther, if set, is told when a goroutine that is not an actor passes a site.
+	onOther func(site string)
 }
 
 func (y *yielder) hook(site string) {
@@ -94,6 +98,9 @@ func (y *yielder) hook(site string) {
 	}
 	label := y.s.ActorLabel()
 	if label == "" {
+		if f := y.onOther; f != nil {
+			f(site)
+		}
 		return
 	}
 	y.s.Count("probe.yield."+site, 1)
@@ -129,7 +136,14 @@ func genTracker(p *simkit.Plan, r *simkit.Rand, tier string) {
 			if useLock && r.Chance(1, 2) {
 				kind = "lockunlock"
 			}
-			p.Ops = append(p.Ops, simkit.Op{Actor: fmt.Sprintf("n%d", r.Intn(nNot)), Kind: kind})
+			op := simkit.Op{Actor: fmt.Sprintf("n%d", r.Intn(nNot)), Kind: kind}
+			if useLock && r.Chance(1, 4) {
+				// The holder releases the tracking lock while another caller is
+				// already queued in Lock; that caller then releases with (1) or
+				// without (0) a notification of its own.
+				op.Kind, op.N = "handoff", []int64{int64(r.Intn(2))}
+			}
+			p.Ops = append(p.Ops, op)
 		case 1:
 			// wait mode: 0 zero index, 1 last index this waiter saw (current
 			// or stale depending on what happened since), 2 deliberately
@@ -254,6 +268,67 @@ func execTracker(t *testing.T, plan *simkit.Plan) *simkit.Result {
 						mu.Unlock()
 						appendOp(&mu, &history, porcupine.Operation{ClientId: ci, Input: trIn{op: "notify"}, Call: call, Output: trOut{}, Return: stamp()})
 						s.Logf(name, "%s", op.Kind)
+					case "handoff":
+						// A state change made under the tracking lock, released
+						// while a second caller is queued inside Lock. The whole
+						// hand-over happens inside this one step (a goroutine
+						// waiting for a sync.Mutex is invisible to synctest, so
+						// it must not outlive the step).
+						lock.Lock()
+						var entered atomic.Bool
+						y.onOther = func(site string) {
+							if site == "trackinglock.lock" {
+								entered.Store(true)
+							}
+						}
+						quiet := op.Int(0) == 0
+						second := make(chan [2]int64, 1)
+						go func() {
+							lock.Lock()
+							c2 := stamp()
+							if quiet {
+								lock.UnlockWithoutNotify()
+							} else {
+								mu.Lock()
+								if !termReturned {
+									notifyStarted++
+								}
+								mu.Unlock()
+								lock.Unlock()
+								mu.Lock()
+								if !termInvoked {
+									notifyDone++
+								}
+								mu.Unlock()
+							}
+							second <- [2]int64{c2, stamp()}
+						}()
+						for i := 0; i < 200 && !entered.Load(); i++ {
+							runtime.Gosched()
+						}
+						for i := 0; i < 20; i++ {
+							runtime.Gosched() // let it reach the mutex and park there
+						}
+						y.onOther = nil
+						call := stamp()
+						mu.Lock()
+						if !termReturned {
+							notifyStarted++
+						}
+						mu.Unlock()
+						lock.Unlock()
+						mu.Lock()
+						if !termInvoked {
+							notifyDone++
+						}
+						mu.Unlock()
+						appendOp(&mu, &history, porcupine.Operation{ClientId: ci, Input: trIn{op: "notify"}, Call: call, Output: trOut{}, Return: stamp()})
+						st2 := <-second
+						if !quiet {
+							appendOp(&mu, &history, porcupine.Operation{ClientId: ci + 100, Input: trIn{op: "notify"}, Call: st2[0], Output: trOut{}, Return: st2[1]})
+						}
+						s.Count("probe.contended_handoff", 1)
+						s.Logf(name, "handoff quiet=%v", quiet)
 					case "terminate":
 						call := stamp()
 						mu.Lock()
